@@ -21,6 +21,10 @@ class Obligation:
     meta: dict = field(default_factory=dict)
 
 
+SAT_CACHE: dict = {}
+_KEEP: list = []      # keeps memoised terms alive so that their ids are not recycled
+
+
 class Path:
     def __init__(self, decisions: list[bool], solver_timeout_ms: int = 2000):
         self.decisions = list(decisions)
@@ -52,7 +56,19 @@ class Path:
         self.pc.append(fact)
 
     def check_sat(self, extra=None) -> str:
-        """'sat' | 'unsat' | 'unknown' for pc (+extra)."""
+        """'sat' | 'unsat' | 'unknown' for pc (+extra).  Results are memoised across the re-executions of one
+        function (terms are hash-consed and fresh names are deterministic per decision prefix)."""
+        key = (tuple(t.get_id() for t in self.pc), extra.get_id() if extra is not None else None, len(sym._lits))
+        hit = SAT_CACHE.get(key)
+        if hit is not None:
+            return hit
+        r = self._check_sat(extra)
+        if len(SAT_CACHE) < 400000:
+            SAT_CACHE[key] = r
+            _KEEP.append((list(self.pc), extra))     # keep the terms alive: ids must not be recycled while memoised
+        return r
+
+    def _check_sat(self, extra=None) -> str:
         self.n_checks += 1
         s = z3.Solver()
         s.set("timeout", self.timeout)
@@ -156,4 +172,7 @@ def explore(run_one: Callable[[Path], tuple[str, Any]], max_paths: int = 4000,
         except Unsupported as e:
             results.append(PathResult("unsupported", None, p, str(e)))
         work.extend(p.pending)
+        _KEEP.append(p.pc)
+    SAT_CACHE.clear()
+    _KEEP.clear()
     return results
